@@ -172,7 +172,7 @@ type identity struct {
 	other string // same pseudonym, different boundary
 }
 
-const nVia = 12
+const nVia = 20
 
 func viaLines(v int, id identity) []string {
 	own := "1.1 " + id.rb
@@ -199,6 +199,24 @@ func viaLines(v int, id identity) []string {
 		return []string{"1.0 fred", own}
 	case 11:
 		return []string{"1.0 fred", "1.1 example.com, " + own + " (comment)"}
+	// this instance's entry as another hop may re-serialise it: any run of SP / HTAB separates the fields and
+	// surrounds the list separator (RFC 7230 3.2.3, 5.7.1)
+	case 12:
+		return []string{"1.1\t" + id.rb}
+	case 13:
+		return []string{"1.1  " + id.rb}
+	case 14:
+		return []string{"1.1 \t" + id.rb}
+	case 15:
+		return []string{own + "\t(comment)"}
+	case 16:
+		return []string{"1.0 fred\t,\t" + own + " \t, 1.1 example.com"}
+	case 17:
+		return []string{"1.0 fred, 1.1\t" + id.rb}
+	case 18:
+		return []string{"1.0 fred", "1.1  " + id.rb}
+	case 19:
+		return []string{"1.0 fred", "1.1 example.com,\t1.1 \t" + id.rb + "  (comment)"}
 	}
 	return nil
 }
@@ -715,8 +733,12 @@ func classOf(c Case, f int) string {
 			return "via_same_name_other_boundary"
 		case v <= 9:
 			return "via_self_first_line"
-		default:
+		case v <= 11:
 			return "via_self_later_line"
+		case v <= 17:
+			return "via_self_ws_variant_first_line"
+		default:
+			return "via_self_ws_variant_later_line"
 		}
 	case fXFF:
 		if v == 2 {
@@ -1097,7 +1119,7 @@ func stateKey(c Case, in http.Header) uint64 {
 		bit++
 	}
 	for _, f := range []int{fVia, fXFF, fXFP, fXFH, fXFU, fCL, fTE, fEnv} {
-		k = k*7 + uint64(classCode(c, f))
+		k = k*9 + uint64(classCode(c, f))
 	}
 	return k
 }
@@ -1113,7 +1135,7 @@ func classCode(c Case, f int) int {
 	return classCodeOf[cl]
 }
 
-var classCodeOf = map[string]int{"via_one_line": 1, "via_multi_line": 2, "via_same_name_other_boundary": 3, "via_self_first_line": 4, "via_self_later_line": 5,
+var classCodeOf = map[string]int{"via_one_line": 1, "via_multi_line": 2, "via_same_name_other_boundary": 3, "via_self_first_line": 4, "via_self_later_line": 5, "via_self_ws_variant_first_line": 6, "via_self_ws_variant_later_line": 7,
 	"xff_one_line": 1, "xff_multi_line": 2, "xfproto_one": 1, "xfproto_multi_line": 2, "xfhost_one": 1, "xfhost_multi_line": 2, "xfurl_one": 1, "xfurl_multi_line": 2,
 	"cl_one": 1, "cl_dup_equal": 2, "cl_conflict": 3, "te_chunked": 1, "te_coded_chunked": 2, "te_bad": 3, "env_alt": 1}
 
@@ -2005,7 +2027,7 @@ func main() {
 		"(direction, set of header names the model removes, classes of Via/X-Forwarded/framing factors[, wire outcome])."
 	rep.Coverage["bounds"] = fmt.Sprintf("Connection: 0..2 lines, each a comma list of 1..%d tokens of {close, keep-alive, X-Foo, x-foo, ' X-Bar ', ''} (%d configurations); "+
 		"X-Foo {absent, one, two lines}, X-Bar {absent, present}; subsets of 7 fixed hop-by-hop headers (%s); 5 unlisted end-to-end headers always present; "+
-		"%d Via chains (none, foreign one/two/three lines, same pseudonym other boundary, this instance alone/first/last/protocol-name form/second line/second line with comment); "+
+		"%d Via chains (none, foreign one/two/three lines, same pseudonym other boundary, this instance alone/first/last/protocol-name form/second line/second line with comment, and 8 whitespace variants of this instance's entry: HTAB, two SP, SP+HTAB between the fields, HTAB before a comment, OWS around the list separator, at first / middle / last position and on a second line); "+
 		"X-Forwarded-For {absent, one, two lines, two values on one line}, -Proto/-Host/-Url {absent, one, two lines}; Content-Length {none, 5, 5|5, '5, 5', 5|6, '5, 6'}; "+
 		"Transfer-Encoding {none, chunked, 'gzip, chunked', gzip|chunked, gzip, 'chunked, gzip', chunked|gzip}; env = {HTTP/1.1, 1.0} x {ipv4:port, [ipv6]:port, ipv4} x {http URL, https URL with port and query}; "+
 		"sub-products as listed in stack_spaces / proxy_spaces", maxTokens, connCount(), strings.Join(fixedNames, ", "), nVia)
